@@ -57,6 +57,11 @@ def _case(draw):
         # contention prefix: every operation first takes a resource of its own (uniform mixes almost never build a cycle)
         perm = draw(st.permutations(RES[:n_res]))
         hist = [["acq", OPS[k], perm[k % n_res]] for k in range(n_ops)][:draw(st.integers(2, 3))] + hist
+        if n_ops == 3 and n_res == 3 and draw(st.integers(0, 2)) == 0:
+            # one operation blocks on the resources of both others before anything else happens (multi-edge waits)
+            x = draw(st.integers(0, 2))
+            others = [perm[k] for k in range(3) if k != x]
+            hist = hist[:3] + [["acq", OPS[x], others[0]], ["acq", OPS[x], others[1]]] + hist[3:]
     if draw(st.booleans()):
         hist = hist + [["watchdog"]]
     return {"ops_n": n_ops, "res": res, "prio": list(prio), "strategy": draw(st.sampled_from(["priority", "priority", "oldest"])), "hist": hist}
